@@ -406,7 +406,19 @@ func (f *fragment) openStorage(unmarshalData bool) error {
 		// so we have a problem here: if this fails, it's unclear whether
 		// *either* or *both* of old and new storage data might be in use.
 		// So we call the thing that should unconditionally unmap both of them...
-		if err := f.storage.UnmarshalBinary(data); err != nil {
+		err := f.storage.UnmarshalBinary(data)
+		if ole, ok := errors.Cause(err).(*roaring.OpLogError); ok {
+			// The snapshot and the operations before ole.Offset were read;
+			// what follows is a torn or corrupt tail (e.g. the process was
+			// killed in the middle of an append). Drop the tail instead of
+			// refusing to open the fragment.
+			f.Logger.Printf("fragment %s: truncating unreadable op log tail at %d: %v", f.file.Name(), ole.Offset, ole.Err)
+			if terr := f.file.Truncate(ole.Offset); terr != nil {
+				return fmt.Errorf("truncating op log: file=%s, err=%s", f.file.Name(), terr)
+			}
+			err = nil
+		}
+		if err != nil {
 			_, e2 := f.storage.RemapRoaringStorage(nil)
 			if e2 != nil {
 				return fmt.Errorf("unmarshal storage: file=%s, err=%s, clearing old mapping also failed: %v", f.file.Name(), err, e2)
